@@ -116,7 +116,7 @@ NewVisits(t, i) == SubSeq(mon'[i].cur[t], Len(mon[i].cur[t]) + 1, Len(mon'[i].cu
 
 TFetchAdd ==
   /\ IsEvent("A") /\ ~ign /\ E.op = "fa"
-  /\ IF pc[E.t] = "fa" /\ op[E.t].it = E.loc /\ E.loc \in Its /\ ReqSize(E.t) = W(E.arg)
+  /\ IF pc[E.t] = "fa" /\ op[E.t].it = E.loc /\ E.loc \in Its /\ AddSize(E.t) = W(E.arg)
         /\ counter[E.loc] = W(E.saw)
        THEN /\ FetchAdd(E.t)
             /\ l' = l + 1
